@@ -167,6 +167,10 @@ def _write_replay(prop: str, v: dict[str, Any]) -> Path:
 def run_check(mod: Any, tier: str, seed: int) -> int:
     t0 = time.time()
     prop = mod.ID
+    from mc import seams
+
+    os.environ.pop("VERIF_SANDBOX_BASE", None)
+    seams.sandbox_base()  # before the fork: workers create their scratch directories inside it
     shards, meta = mod.plan(tier, seed)
     modname = mod.__name__
     agg = ShardResult()
